@@ -302,7 +302,9 @@ def adapters(m):
         "error_model.InsErrorModel.position_error_jacobian": lambda e, p, v: (e.position_error_jacobian(p, v),),
         "error_model.InsErrorModel.ned_velocity_error_jacobian": lambda e, p: (e.ned_velocity_error_jacobian(p),),
         "error_model.InsErrorModel.body_velocity_error_jacobian": lambda e, p: (e.body_velocity_error_jacobian(p),),
-        "error_model.propagate_errors": lambda tr, pe, g, a: EM.propagate_errors(tr, pe, g, a),
+        # None = leave the parameter to its default (the defaults are arrays created once, at import time)
+        "error_model.propagate_errors": lambda tr, pe, g, a: EM.propagate_errors(
+            tr, pe, **{k: v for k, v in (("gyro_error", g), ("accel_error", a)) if v is not None}),
         "measurements.Position": lambda tr, sd, lev: (MS.Position(tr, sd, lev),),
         "measurements.NedVelocity": lambda tr, sd, lev: (MS.NedVelocity(tr, sd, lev),),
         "measurements.BodyVelocity": lambda bv, sd: (MS.BodyVelocity(bv, sd),),
@@ -370,6 +372,14 @@ def schema_ok(kind, res, args, j=1):
     cols, idx = R.SCHEMAS[k]
     if k == "ned_or_array":
         return (not isinstance(res, pd.DataFrame)) or list(res.columns) == cols
+    if k == "increments":
+        # one row per IMU sample after the first, stamped with that sample's time and carrying its own interval (C15's row clause)
+        src = [a for a in args if isinstance(a, pd.DataFrame) and "gyro_x" in a.columns]
+        if src and isinstance(res, pd.DataFrame):
+            imu = src[0]
+            if not (len(res) == len(imu) - 1 and np.array_equal(np.asarray(res.index), np.asarray(imu.index[1:]))
+                    and "dt" in res.columns and np.array_equal(res["dt"].values, np.diff(np.asarray(imu.index, dtype=float)))):
+                return False
     if k in ("estimates", "estimates_table"):
         models = [a for a in args if hasattr(a, "states") and hasattr(a, "update_estimates")]
         if not models:
